@@ -17,7 +17,16 @@ type ccSys struct {
 	n    int
 	c    *cache.Cache[string, int]
 	cnt  int
+	off  int // the callback returns its invocation number + off (off = -1: the first result is the zero value)
 }
+
+// clock used for the stamps; the vshim build replaces these by the virtual clock (callcount_v.go)
+var (
+	ccNow    = time.Now
+	ccUnit   = time.Microsecond
+	ccEnable = func() {}
+	ccTick   = func(d int) { time.Sleep(time.Duration(d) * time.Microsecond) }
+)
 
 type codeErr int
 
@@ -35,12 +44,23 @@ func (s *ccSys) Do(o tt.Op) tt.Res {
 		if len(o.A) > 0 {
 			s.n = o.A[0]
 		}
-		// a fresh cache whose entries never expire, one per sequence
-		s.c = cache.New[string, int](cache.NoExpiration, 0)
+		if len(o.A) > 1 {
+			s.off = o.A[1]
+		}
+		ccEnable()
+		// a fresh cache, one per sequence; its entries never expire unless a lifetime is given (a[2])
+		exp := cache.NoExpiration
+		if len(o.A) > 2 && o.A[2] > 0 {
+			exp = time.Duration(o.A[2]) * ccUnit
+		}
+		s.c = cache.New[string, int](exp, 0)
+		return tt.Res{Ok: true}
+	case "tick":
+		ccTick(o.A[0])
 		return tt.Res{Ok: true}
 	case "call":
 		before := s.cnt
-		fn := func() int { s.cnt++; return s.cnt }
+		fn := func() int { s.cnt++; return s.cnt + s.off }
 		v := 0
 		switch s.kind {
 		case "after":
@@ -56,6 +76,9 @@ func (s *ccSys) Do(o tt.Op) tt.Res {
 		inv := 0
 		att, err := gogu.RType[int]{Input: 7}.Retry(n, func(in int) error {
 			inv++
+			if inv > 1000 {
+				panic("callback invoked more than 1000 times")
+			}
 			if in != 7 {
 				panic("input not passed through")
 			}
@@ -72,12 +95,16 @@ func (s *ccSys) Do(o tt.Op) tt.Res {
 		return tt.Res{Ok: err == nil, V: att, S: []int{inv, code}}
 	case "retrydelay":
 		n, fails := retryArgs(append([]int{o.A[0]}, o.A[2:]...))
-		d := time.Duration(o.A[1]) * time.Microsecond
+		d := time.Duration(o.A[1]) * ccUnit
 		inv := 0
 		var stamps []time.Time
+		ccEnable()
 		_, att, err := gogu.RType[int]{Input: 7}.RetryWithDelay(n, d, func(_ time.Duration, in int) error {
-			stamps = append(stamps, time.Now())
+			stamps = append(stamps, ccNow())
 			inv++
+			if inv > 1000 {
+				panic("callback invoked more than 1000 times")
+			}
 			if fails(inv) {
 				return codeErr(inv)
 			}
@@ -85,7 +112,7 @@ func (s *ccSys) Do(o tt.Op) tt.Res {
 		})
 		minGap := 1 << 30
 		for i := 1; i < len(stamps); i++ {
-			if g := int(stamps[i].Sub(stamps[i-1]) / time.Microsecond); g < minGap {
+			if g := int(stamps[i].Sub(stamps[i-1]) / ccUnit); g < minGap {
 				minGap = g
 			}
 		}
@@ -95,6 +122,9 @@ func (s *ccSys) Do(o tt.Op) tt.Res {
 }
 
 func (s *ccSys) Proj() any { return 0 }
+
+// ccVirtual: the harness was built against the scratch copy whose `time` is the virtual clock
+var ccVirtual = false
 
 func init() {
 	drivers["callcount"] = driver{
@@ -116,18 +146,35 @@ func init() {
 			}
 			for n := -2; n <= 8; n++ {
 				for _, k := range []string{"after_new", "before_new"} {
-					ops := []tt.Op{op(k, n)}
-					for i := 0; i < 12; i++ {
-						ops = append(ops, op("call"))
+					for _, off := range []int{0, -1} {
+						ops := []tt.Op{op(k, n, off)}
+						for i := 0; i < 12; i++ {
+							ops = append(ops, op("call"))
+						}
+						chain(ops...)
 					}
-					chain(ops...)
 				}
 			}
-			once := []tt.Op{op("once_new")}
-			for i := 0; i < 8; i++ {
-				once = append(once, op("call"))
+			// Once: the first result may be the zero value; with a lifetime the entry expires between calls
+			for _, off := range []int{0, -1} {
+				once := []tt.Op{op("once_new", 0, off)}
+				for i := 0; i < 8; i++ {
+					once = append(once, op("call"))
+				}
+				chain(once...)
+				if ccVirtual {
+					for _, gaps := range [][]int{{1, 1, 1, 1, 1, 1, 1, 1}, {2, 2, 2, 3, 1, 6, 1, 1}, {4, 1, 5, 0, 0, 7, 3, 3}, {6, 6, 6, 0, 0, 0, 9, 1}} {
+						exp := []tt.Op{op("once_new", 0, off, 5)}
+						for _, g := range gaps {
+							exp = append(exp, op("call"))
+							if g > 0 {
+								exp = append(exp, op("tick", g))
+							}
+						}
+						chain(exp...)
+					}
+				}
 			}
-			chain(once...)
 			maxLen := 6
 			if cfg.Tier == "thorough" {
 				maxLen = 8
@@ -143,9 +190,15 @@ func init() {
 					}
 				}
 			}
+			delays := []int{1500}
+			if ccVirtual {
+				delays = []int{0, 1, 1500}
+			}
 			for n := -1; n <= 4; n++ {
-				for _, p := range [][]int{{}, {1, 1, 0}, {1, 0}, {0}, {1, 1, 1, 1, 1}} {
-					chain(op("retrydelay", append([]int{n, 1500}, p...)...))
+				for _, d := range delays {
+					for _, p := range [][]int{{}, {1, 1, 0}, {1, 0}, {0}, {1, 1, 1, 1, 1}} {
+						chain(op("retrydelay", append([]int{n, d}, p...)...))
+					}
 				}
 			}
 			lines, err := ls.Close()
